@@ -28,11 +28,11 @@ INITS = ["fresh", "in1", "in1_in2", "out1", "in1_pend", "in1_in1", "in1_out2", "
 
 EP_ACTIONS = ["cer1", "cer2", "cerx", "cer1nc", "cea_ok", "cea_rej", "dwr", "dwa", "dpr", "dpa", "req", "req2", "reqT", "reqdup", "req_bad",
               "req_realm", "req_app9", "dpr_req", "half", "ans", "ans_unk", "eof", "rst", "req_h0", "req_e0", "dwr_00",
-              "req_part", "cea_rej_req", "cer1_req", "req_raise", "wr_eagain", "wr_short", "req_lag", "req_2048", "req_eof_lag"]
+              "req_part", "cea_rej_req", "cer1_req", "req_raise", "wr_eagain", "wr_short", "req_lag", "req_2048", "req_eof_lag", "reqT_other"]
 GLOBAL = ["accept", "dial1", "dial1_refused", "app_ans", "app_ans_new", "app_ans_again", "app_req0", "app_req1", "tick5", "tick25", "tick31", "node_close_old",
           "handler_raises", "reconn1", "reconn1_out", "both_lag", "dial1_early"]
 FUNCTIONS = ["wire level (uni): Node._handle_connections, PeerConnection.work_read_queue/work_write_queue, Node._receive_message and every receive_*/send_* handler, route_request/route_answer, _check_timers, _reconnect_peers, remove_peer_connection - driven by bytes on virtual sockets, observed as bytes"]
-BOUNDS = {"quick": "wire-level histories (uni): every 2-event history over 87 events from the 2-4 initial states closest to the property, this property's monitor after every event",
+BOUNDS = {"quick": "wire-level histories (uni): every 2-event history over 89 events from the 2-4 initial states closest to the property, this property's monitor after every event",
           "thorough": "wire-level histories (uni): every 2-event history from 9 initial states x {persistent, non-persistent peers}; every 3-event history for 48 seeded (initial state, first event) pairs"}
 OUTSIDE = ["wire-level histories deeper than 3 events beyond the 9 initial states", "more than 2 configured peers / 3 simultaneous connections in the wire-level histories"]
 EVENTS = [a + "@new" for a in EP_ACTIONS] + [a + "@old" for a in EP_ACTIONS] + GLOBAL
@@ -413,6 +413,8 @@ class Uni:
                     self.bad("C06", "request received before the capabilities exchange succeeded was answered (%s)" % rec["answers"])
                 continue
             if exp[0] == "deliver":
+                if rec["delivered"] != [exp[1]] and rec["kind"] == "reqT_other":
+                    self.bad("C17", "request of another origin host with an end-to-end id this peer has used was not delivered (%s, node answers %s)" % (rec["delivered"], rec["answers"]))
                 if rec["delivered"] != [exp[1]]:
                     self.bad("C17" if rec["kind"] in ("reqT", "reqdup") else "C08",
                              "request (%s) on a ready connection was delivered to %s, expected exactly once to application %d (node answers: %s)" % (
@@ -528,6 +530,12 @@ class Uni:
                 return self.push(ep, [(B.dpr(origin, i, i), act)])
             if act == "dpa":
                 return self.push(ep, [(B.dpa(origin, i, i), act)])
+            if act == "reqT_other":
+                # relayed traffic: a T-flagged request of ANOTHER origin host behind this peer that happens to carry the end-to-end
+                # id of the last request of the peer itself (ids are unique per origin host only) - not a duplicate
+                m = self.mk_req(ep, "reqT")
+                m.origin_host = b"relayed.local.realm"
+                return self.push(ep, [(B.Message.from_bytes(m.as_bytes()), "reqT_other")])
             if act in ("req", "reqT", "reqdup", "req_bad", "req_realm", "req_app9", "req_h0", "req_e0"):
                 return self.push(ep, [(self.mk_req(ep, act), act)])
             if act == "req2":
@@ -941,7 +949,7 @@ class Uni:
                 continue
             if not self.eps[-1].ready:
                 continue
-            for act in ("req", "req_bad", "req_realm", "req_app9", "reqT", "dwr"):
+            for act in ("req", "req_bad", "req_realm", "req_app9", "reqT", "reqT_other", "dwr"):     # (one window per origin host seen: bounded by the relayed hosts, as documented)
                 self.apply(act + "@new")
             for name in ("app_req0", "app_req1"):
                 self.apply(name)
@@ -1044,7 +1052,7 @@ def baseline(init, persistent):
 
 
 QUICK_INITS = {
-    "C05": ["in1", "in1_in2", "in1_pend"], "C06": ["fresh", "out1", "in1", "in1_out2"], "C07": ["in1", "in1_pend", "in1_answered", "out1"], "C08": ["in1", "in1_in2", "in1_pend", "out1"],
+    "C05": ["in1", "in1_in2", "in1_pend"], "C06": ["fresh", "out1", "in1", "in1_out2"], "C07": ["in1", "in1_pend", "in1_answered", "out1"], "C08": ["in1", "in1_in2", "in1_pend", "in1_answered"],
     "C09": ["in1_pend", "in1_in1", "in1_in2", "in1_dwr"], "C10": ["in1", "in1_out2", "in1_dwr", "in1_in1"], "C11": ["in1", "in1_dwr", "out1", "in1_in2"],
     "C12": ["in1", "in1_dwr", "out1", "in1_in1"], "C13": ["fresh", "in1_in1", "in1_out2", "in1_in2"], "C14": ["in1", "in1_pend", "fresh", "in1_in1"],
     "C15": ["in1_pend", "in1", "out1"], "C17": ["in1_answered", "in1", "in1_pend", "in1_in1"], "C19": ["in1", "in1_pend", "in1_answered", "in1_out2"],
